@@ -302,6 +302,39 @@ Section VecProofs.
       autorewrite with nthe. cbn [length]. ltb_cases; nth_close.
   Qed.
 
+  Lemma vec_empty_wf' : vec_wf (vec_empty T) /\ vec_contents T (vec_empty T) = [].
+  Proof. unfold vec_wf, vec_empty; cbn. split; [lia|reflexivity]. Qed.
+
+  (* ---------------- __convert / destroy *)
+  Lemma fill_from_ok : forall xs i d, i + length xs <= length d ->
+    fill_from T i xs d = Ok (overwrite i xs d).
+  Proof.
+    induction xs as [|x tl IH]; intros i d H; cbn [fill_from].
+    - f_equal. unfold overwrite. cbn [app length]. rewrite Nat.add_0_r, firstn_skipn. reflexivity.
+    - cbn [length] in H. rewrite sset_ok by lia. cbn [rbind].
+      rewrite IH by (rewrite length_overwrite; cbn [length]; lia). f_equal.
+      apply nth_error_ext; intro j.
+      rewrite nthe_overwrite_in by (rewrite length_overwrite; cbn [length]; lia).
+      rewrite nthe_overwrite_in by (cbn [length]; lia).
+      rewrite nthe_overwrite_in by (cbn [length]; lia). cbn [length]. rewrite !nthe_cons, nthe_nil.
+      ltb_cases; nth_close.
+  Qed.
+
+  Lemma vec_convert_ok : forall xs,
+    exists v', vec_convert T dflt xs = Ok v' /\ vec_wf v' /\ vec_contents T v' = xs.
+  Proof.
+    intros xs. unfold vec_convert, vec_reserve, vec_cap, vec_empty; cbn [vdata vsize length].
+    destruct (Nat.leb_spec (length xs) 0).
+    - assert (xs = []) as -> by (apply length_zero_iff_nil; lia). cbn. eexists; split; [reflexivity|].
+      split; [unfold vec_wf; cbn; lia|reflexivity].
+    - cbn [vdata]. rewrite fill_from_ok by (rewrite length_srealloc; lia). cbn [rbind].
+      eexists; split; [reflexivity|]. split.
+      + unfold vec_wf; cbn [vdata vsize]. rewrite length_overwrite by (rewrite length_srealloc; lia). rewrite length_srealloc. lia.
+      + rewrite contents_mk. apply nth_error_ext; intro j.
+        rewrite nthe_firstn, nthe_overwrite_in by (rewrite length_srealloc; lia).
+        ltb_cases; nth_close; try (symmetry; apply nthe_beyond; lia).
+  Qed.
+
   (* ---------------- one step, and whole histories *)
   Definition vec_refines (o : cop T) (v : vec T) : Prop :=
     match lst_step T dflt teqb o (vec_contents T v) with
@@ -338,6 +371,9 @@ Section VecProofs.
     - pose proof (vec_assign_ok pos x v W) as P. destruct (pos <? length (vec_contents T v)).
       + destruct P as (v' & -> & W' & C). cbn [rbind]. eauto.
       + rewrite P. reflexivity.
+    - exists (vec_empty T). split; [reflexivity|]. apply vec_empty_wf'.
+    - destruct (vec_convert_ok xs) as (v' & -> & W' & C). cbn [rbind]. eauto.
+    - eauto.
   Qed.
 
   (* a history: run until the first trap; collects the return values *)
